@@ -308,8 +308,14 @@ def rule_const(ctx):
       c_ = sym.mk("attr", P("param", "self"), "c")
       if len(st_as) == 1 and as_poly(st_as[0].data["value"]) == sym.mk("mod", sh * a_ + c_, sym.mk("pow", Poly.const(2), osz * 2)):
         ok_step = True
-        outs = [e for e in evs if e.kind == "assign" and e.data["name"] == "output"]
-        if len(outs) == 1 and as_poly(outs[0].data["value"]) == sym.mk("shr", as_poly(st_as[0].data["value"]), osz):
+        # the output of the step, by value: whatever is turned into bytes and stored into the buffer on this pass
+        outs = []
+        for e in evs:
+          if e.kind == "store" and isinstance(e.data.get("value"), Poly):
+            va = e.data["value"].as_atom()
+            if va is not None and va.kind == "pm" and bitwidth.lit_of(va.args[1]) == "to_bytes":
+              outs.append(as_poly(va.args[0]))
+        if len(outs) == 1 and outs[0] == sym.mk("shr", as_poly(st_as[0].data["value"]), osz):
           ok_out = True
   ctx.record(R, f.where, "state update", ok_step, "state = (state * a + c) mod 2^(2*output_size)" if ok_step else "state update is not the LCG step modulo 2^(2*output_size)")
   ctx.record(R, f.where, "output = upper half", ok_out, "output = state >> output_size" if ok_out else "output is not the upper half of the new state")
